@@ -617,6 +617,9 @@ func (n *PathRecursiveNode) Index(_ int) (PathNode, bool, error) {
 }
 
 func valueToSliceValue(v interface{}) []interface{} {
+	if v == nil {
+		return nil
+	}
 	rv := reflect.ValueOf(v)
 	ret := []interface{}{}
 	if rv.Type().Kind() == reflect.Slice || rv.Type().Kind() == reflect.Array {
